@@ -383,6 +383,11 @@ def eval_trace(rp, rng):
     try:
         model, trace = mm.fit(name, data, init, iterations=rp['iterations'], **opts)
     except Exception as e:
+        zero_in = any(bool((np.abs(v).sum(-1) == 0).any()) for k_, v in data.items() if np.iscomplexobj(v))
+        if core.deliberate_exception(e) and (zero_in or name in ('gmm', 'gcacgmm', 'cbmm')):
+            # silent frame (finiteness assertion), collapsed Gaussian class (sklearn's ValueError) or rank-deficient
+            # Bingham scatter (assertion): deliberate, explicit exceptions
+            return None, None, None
         return 'fit raised %s: %s' % (type(e).__name__, str(e)[:200]), 'trace:raises:%s' % name, None
     if len(trace) != rp['iterations']:
         return 'fit(iterations=%d) performed %d M-steps' % (rp['iterations'], len(trace)), 'trace:count:%s' % name, None
@@ -736,8 +741,15 @@ def _mk(rp, name, nontrivial, rng, kind=None):
     try:
         fail, key, coq = EVAL[rp['fn']](rp, rng)
     except Exception as e:
-        fail, key, coq = ('%s raised %s: %s' % (rp['fn'], type(e).__name__, str(e)[:300]),
-                          '%s:crash:%s' % (rp['fn'], type(e).__name__), None)
+        zero_in = any(isinstance(v, np.ndarray) and v.ndim >= 2 and np.iscomplexobj(v) and bool((np.abs(v).sum(-1) == 0).any())
+                      for v in list(rp.values()) + (list(rp['data'].values()) if isinstance(rp.get('data'), dict) else []))
+        zero_q = isinstance(rp.get('q'), np.ndarray) and bool((np.array(rp['q']) == 0).any())
+        if core.deliberate_exception(e) and (zero_in or zero_q):
+            # silent frames / zero quadratic forms: the trainers assert finiteness on purpose (s/q overflows)
+            fail, key, coq = None, None, None
+        else:
+            fail, key, coq = ('%s raised %s: %s' % (rp['fn'], type(e).__name__, str(e)[:300]),
+                              '%s:crash:%s' % (rp['fn'], type(e).__name__), None)
     arrs = [v for v in rp.values() if isinstance(v, np.ndarray)]
     return Case(name, coq=coq, pred_fail=fail, key=key, nontrivial=bool(nontrivial), digest_=core.digest(name, *arrs),
                 sample={'name': name}, replay=rp, kind=kind or ('single/' + rp['fn']))
